@@ -9,50 +9,106 @@
 From OIDC Require Import Lib C05_Model C05_spec C05_proofs C05_near_proofs.
 
 (* Token endpoint, every router, configuration, registration, presentation and grant_type
-   outside the recorded gap: a 2xx answer implies provider flag / storage capability on,
+   outside the two recorded gaps: a 2xx answer implies provider flag / storage capability on,
    grant registered, and the credential of the registered method (jwt-bearer: the grant
-   assertion is signed by a key registered for its issuer). *)
-Theorem C05_token_partial : forall r c rg p g pl pv,
+   assertion is signed by a key registered for its issuer).  [cred_valid] includes the transport
+   rule of the property text - "correct secret via Basic or - if enabled - POST": a secret sent
+   as a form parameter counts only while Config.AuthMethodPost is on ([secret_as_enabled]).
+   [post_gap] (finding Fxx-C05-6): a handler that reads form credentials ([reads_form_secret]: every
+   token handler except the Provider router's token exchange and device_code), a client held to a
+   secret but not registered client_secret_post, AuthMethodPost off, the exact secret in the form
+   only. *)
+Theorem C05_token_partial : forall r c rg p g pl pv ar,
   (r = RProvider /\ g = GDevice /\ registered rg GDevice = false -> False) ->
+  post_gap (mkInput r EToken c rg p g pl pv ar) = false ->
   names_other p = false ->
-  success (model (mkInput r EToken c rg p g pl pv)) = true ->
+  success (model (mkInput r EToken c rg p g pl pv ar)) = true ->
   token_justified c rg p g = true.
 Proof. exact token_partial. Qed.
 Print Assumptions C05_token_partial.
 
+(* For EVERY input outside the device gap - the post gap included - everything but the transport
+   rule holds ([token_justified_lax]: capability, grant registration, known client, the exact secret
+   somewhere in the request / a valid assertion / a public client on a grant that admits one). *)
+Theorem C05_token_any_transport : forall r c rg p g pl pv ar,
+  (r = RProvider /\ g = GDevice /\ registered rg GDevice = false -> False) ->
+  names_other p = false ->
+  success (model (mkInput r EToken c rg p g pl pv ar)) = true ->
+  token_justified_lax c rg p g = true.
+Proof. exact token_partial_lax. Qed.
+Print Assumptions C05_token_any_transport.
+
+(* Without the post guard the statement is false also outside the device gap (finding Fxx-C05-6:
+   AuthMethodPost off, client registered client_secret_basic, exact secret as client_secret in
+   the body, authorization_code grant, Provider router -> tokens) ... *)
+Theorem C05_token_post_refuted : ~ (forall r c rg p g pl pv ar,
+  (r = RProvider /\ g = GDevice /\ registered rg GDevice = false -> False) ->
+  names_other p = false ->
+  success (model (mkInput r EToken c rg p g pl pv ar)) = true -> token_justified c rg p g = true).
+Proof. exact token_post_refuted. Qed.
+Print Assumptions C05_token_post_refuted.
+
+(* ... inside that class capability, grant registration, a known client and its exact secret are
+   still enforced ... *)
+Theorem C05_token_post_gap : forall r c rg p g pl pv ar,
+  post_gap (mkInput r EToken c rg p g pl pv ar) = true -> names_other p = false ->
+  success (model (mkInput r EToken c rg p g pl pv ar)) = true ->
+  capability c g = true /\ registered rg g = true /\ r_known rg = true /\ presents_right_secret p = true.
+Proof. exact token_post_gap. Qed.
+Print Assumptions C05_token_post_gap.
+
+(* ... and outside it AuthMethodPost = false means what it says: a request whose Authorization
+   header does not carry the client's exact secret, and that has no valid assertion, obtains no
+   token for any client that is not public - the exact secret as a form parameter buys nothing,
+   for a client registered client_secret_post on every router and grant, and for a
+   client_secret_basic client on the handlers outside the class (Provider router: token exchange,
+   device_code - [C05_post_gap_excludes_unread]). *)
+Theorem C05_post_disabled_form_secret_refused : forall r c rg p g pl pv ar,
+  f_post c = false -> post_gap (mkInput r EToken c rg p g pl pv ar) = false ->
+  secret_in_basic p = false -> presents_ok_assertion p = false ->
+  r_meth rg <> MNone -> g <> GBearer -> names_other p = false ->
+  success (model (mkInput r EToken c rg p g pl pv ar)) = false.
+Proof. exact post_disabled_form_secret_refused. Qed.
+Print Assumptions C05_post_disabled_form_secret_refused.
+
+Theorem C05_post_gap_excludes_unread : forall r c rg p g pl pv ar,
+  reads_form_secret r g = false -> post_gap (mkInput r EToken c rg p g pl pv ar) = false.
+Proof. exact post_gap_excludes_unread. Qed.
+Print Assumptions C05_post_gap_excludes_unread.
+
 (* The same without the guard is what the property asks; the code does not meet it
    (finding Fxx-C05-4: Provider router, device_code grant, grant not registered). *)
-Theorem C05_token_refuted : ~ (forall r c rg p g pl pv,
+Theorem C05_token_refuted : ~ (forall r c rg p g pl pv ar,
   names_other p = false ->
-  success (model (mkInput r EToken c rg p g pl pv)) = true -> token_justified c rg p g = true).
+  success (model (mkInput r EToken c rg p g pl pv ar)) = true -> token_justified c rg p g = true).
 Proof. exact token_refuted. Qed.
 Print Assumptions C05_token_refuted.
 
 (* Inside the gap everything except the grant registration is still enforced. *)
-Theorem C05_token_gap : forall c rg p pl pv,
+Theorem C05_token_gap : forall c rg p pl pv ar,
   registered rg GDevice = false -> names_other p = false ->
-  success (model (mkInput RProvider EToken c rg p GDevice pl pv)) = true ->
+  success (model (mkInput RProvider EToken c rg p GDevice pl pv ar)) = true ->
   c_dev c = true /\ cred_valid c rg p true = true.
 Proof. exact token_gap. Qed.
 Print Assumptions C05_token_gap.
 
-Theorem C05_introspect : forall r c rg p g pl pv,
+Theorem C05_introspect : forall r c rg p g pl pv ar,
   names_other p = false ->
-  success (model (mkInput r EIntrospect c rg p g pl pv)) = true -> authenticated rg p = true.
+  success (model (mkInput r EIntrospect c rg p g pl pv ar)) = true -> authenticated rg p = true.
 Proof. exact introspect_statement. Qed.
 Print Assumptions C05_introspect.
 
-Theorem C05_revoke : forall r c rg p g pl pv,
+Theorem C05_revoke : forall r c rg p g pl pv ar,
   names_other p = false ->
-  success (model (mkInput r ERevoke c rg p g pl pv)) = true ->
+  success (model (mkInput r ERevoke c rg p g pl pv ar)) = true ->
   authenticated rg p = true \/ (r_known rg = true /\ r_meth rg = MNone /\ identifies p = true).
 Proof. exact revoke_statement. Qed.
 Print Assumptions C05_revoke.
 
 (* [names_other p]: the request names the second client Y (see C05_acts_for_self) *)
-Theorem C05_device_authz : forall r c rg p g pl pv,
+Theorem C05_device_authz : forall r c rg p g pl pv ar,
   names_other p = false ->
-  success (model (mkInput r EDeviceAuthz c rg p g pl pv)) = true ->
+  success (model (mkInput r EDeviceAuthz c rg p g pl pv ar)) = true ->
   r_known rg = true /\ identifies p = true /\ registered rg GDevice = true.
 Proof. exact device_authz_statement. Qed.
 Print Assumptions C05_device_authz.
@@ -103,21 +159,29 @@ Proof. exact device_code_for_other_needs_grant. Qed.
 Print Assumptions C05_device_code_for_other_needs_grant.
 
 (* The property predicate evaluated by the correspondence run holds of the model on every
-   input outside the gap, and fails inside it. *)
+   input outside the recorded gaps (device: Fxx-C05-4 / 4b, post: Fxx-C05-6), and fails inside each.
+   [art_modelled i]: the state of the artefact (live / undecodable / unknown) is an input for the token sent to
+   introspection and revocation and for the jwt-bearer grant assertion; the other grants' artefacts are live
+   in every case the correspondence run generates. *)
 Theorem C05_spec_model_partial : forall i,
-  known_gap i = false -> other_gap i = false -> spec i (model i) = true.
-Proof. exact spec_model. Qed.
+  art_modelled i = true ->
+  known_gap i = false -> post_gap i = false -> other_gap i = false -> spec i (model i) = true.
+Proof. exact spec_model_wf. Qed.
 Print Assumptions C05_spec_model_partial.
 
 Theorem C05_spec_model_refuted : exists i, spec i (model i) = false.
 Proof. exact spec_model_refuted. Qed.
 Print Assumptions C05_spec_model_refuted.
 
+Theorem C05_spec_model_post_refuted : exists i, known_gap i = false /\ other_gap i = false /\ spec i (model i) = false.
+Proof. exact spec_model_post_refuted. Qed.
+Print Assumptions C05_spec_model_post_refuted.
+
 (* Sequences of requests on one provider instance: no guard keeps state, the answer to a request
-   does not depend on what was served before it ([pv]: a fully credentialed request of a third
+   does not depend on what was served before it ([pv ar]: a fully credentialed request of a third
    client, by assertion / Basic / post). *)
-Theorem C05_history_independent : forall r e c rg p g pl pv pv',
-  model (mkInput r e c rg p g pl pv) = model (mkInput r e c rg p g pl pv').
+Theorem C05_history_independent : forall r e c rg p g pl pv pv' ar,
+  model (mkInput r e c rg p g pl pv ar) = model (mkInput r e c rg p g pl pv' ar).
 Proof. exact history_independent. Qed.
 Print Assumptions C05_history_independent.
 
@@ -131,35 +195,35 @@ Print Assumptions C05_storage_accepts_empty_secret.
 (* ... and yet a hollow credential (client_id only, Basic with an empty password, an empty
    client_secret, a client_assertion_type without client_assertion) obtains neither token
    metadata nor tokens on the grants that require authentication, for any client. *)
-Theorem C05_hollow_credential_refused : forall r e c rg p g pl pv,
+Theorem C05_hollow_credential_refused : forall r e c rg p g pl pv ar,
   hollow p = true ->
   e = EIntrospect \/ (e = EToken /\ (g = GTE \/ g = GCC)) ->
-  success (model (mkInput r e c rg p g pl pv)) = false.
+  success (model (mkInput r e c rg p g pl pv ar)) = false.
 Proof. exact hollow_credential_refused. Qed.
 Print Assumptions C05_hollow_credential_refused.
 
 (* The refusals the property text names. *)
-Theorem C05_unknown_client_refused : forall r e c rg p g pl pv,
-  r_known rg = false -> names_other p = false -> success (model (mkInput r e c rg p g pl pv)) = false.
+Theorem C05_unknown_client_refused : forall r e c rg p g pl pv ar,
+  r_known rg = false -> names_other p = false -> success (model (mkInput r e c rg p g pl pv ar)) = false.
 Proof. exact unknown_client_refused. Qed.
 Print Assumptions C05_unknown_client_refused.
 
-Theorem C05_wrong_secret_refused : forall r e c rg p g pl pv,
+Theorem C05_wrong_secret_refused : forall r e c rg p g pl pv ar,
   has_secret (r_meth rg) = true -> presents_right_secret p = false -> presents_ok_assertion p = false ->
   e <> EDeviceAuthz -> g <> GBearer ->
-  success (model (mkInput r e c rg p g pl pv)) = false.
+  success (model (mkInput r e c rg p g pl pv ar)) = false.
 Proof. exact wrong_secret_refused. Qed.
 Print Assumptions C05_wrong_secret_refused.
 
-Theorem C05_unregistered_grant_refused : forall r c rg p g pl pv,
+Theorem C05_unregistered_grant_refused : forall r c rg p g pl pv ar,
   registered rg g = false -> g <> GBearer -> (r = RProvider /\ g = GDevice -> False) ->
   names_other p = false ->
-  success (model (mkInput r EToken c rg p g pl pv)) = false.
+  success (model (mkInput r EToken c rg p g pl pv ar)) = false.
 Proof. exact unregistered_grant_refused. Qed.
 Print Assumptions C05_unregistered_grant_refused.
 
-Theorem C05_disabled_grant_refused : forall r c rg p g pl pv,
-  capability c g = false -> names_other p = false -> success (model (mkInput r EToken c rg p g pl pv)) = false.
+Theorem C05_disabled_grant_refused : forall r c rg p g pl pv ar,
+  capability c g = false -> names_other p = false -> success (model (mkInput r EToken c rg p g pl pv ar)) = false.
 Proof. exact disabled_grant_refused. Qed.
 Print Assumptions C05_disabled_grant_refused.
 
@@ -171,10 +235,10 @@ Print Assumptions C05_disabled_grant_refused.
    ([presents_right_secret]) or names X ([identifies]).
    A client that is not public obtains nothing, anywhere authentication is needed, without its
    exact secret or a valid assertion ... *)
-Theorem C05_not_public_needs_credential : forall r e c rg p g pl pv,
+Theorem C05_not_public_needs_credential : forall r e c rg p g pl pv ar,
   r_meth rg <> MNone -> presents_right_secret p = false -> presents_ok_assertion p = false ->
   e <> EDeviceAuthz -> g <> GBearer ->
-  success (model (mkInput r e c rg p g pl pv)) = false.
+  success (model (mkInput r e c rg p g pl pv ar)) = false.
 Proof. exact not_public_needs_credential. Qed.
 Print Assumptions C05_not_public_needs_credential.
 
@@ -182,10 +246,10 @@ Print Assumptions C05_not_public_needs_credential.
    white-space-only secret does not stand in for the empty stored secret of a public or
    private_key_jwt client ([only_wrong_secrets p]: any mixture of blank, near-miss, wrong and
    empty secrets in header and form satisfies the two premises) ... *)
-Theorem C05_no_credential_no_authentication : forall r e c rg p g pl pv,
+Theorem C05_no_credential_no_authentication : forall r e c rg p g pl pv ar,
   presents_right_secret p = false -> presents_ok_assertion p = false ->
   e = EIntrospect \/ (e = EToken /\ (g = GTE \/ g = GCC)) ->
-  success (model (mkInput r e c rg p g pl pv)) = false.
+  success (model (mkInput r e c rg p g pl pv ar)) = false.
 Proof. exact no_credential_no_authentication. Qed.
 Print Assumptions C05_no_credential_no_authentication.
 
@@ -198,8 +262,8 @@ Print Assumptions C05_only_wrong_secrets_presents_nothing.
    included), for every registration of X (a public X included), nothing is obtained on any
    endpoint, in the Basic header, the form, or as issuer of the client assertion / of the
    jwt-bearer grant assertion. *)
-Theorem C05_near_id_refused : forall r e c rg sl s g pl pv,
-  success (model (mkInput r e c rg (PNearId sl s) g pl pv)) = false.
+Theorem C05_near_id_refused : forall r e c rg sl s g pl pv ar,
+  success (model (mkInput r e c rg (PNearId sl s) g pl pv ar)) = false.
 Proof. exact near_id_refused. Qed.
 Print Assumptions C05_near_id_refused.
 
@@ -214,9 +278,9 @@ Print Assumptions C05_blank_and_near_are_wrong.
    constants (unset, client_secret_jwt, tls_client_auth, an unknown string, a case variant) for
    a client with a stored secret; read as the default client_secret_basic: no tokens without
    the exact secret - in particular not for a bare client_id on the device_code grant. *)
-Theorem C05_other_method_needs_secret : forall r c rg p g pl pv,
+Theorem C05_other_method_needs_secret : forall r c rg p g pl pv ar,
   r_meth rg = MOther -> presents_right_secret p = false -> g <> GBearer ->
-  success (model (mkInput r EToken c rg p g pl pv)) = false.
+  success (model (mkInput r EToken c rg p g pl pv ar)) = false.
 Proof. exact other_method_needs_secret. Qed.
 Print Assumptions C05_other_method_needs_secret.
 
@@ -225,9 +289,9 @@ Print Assumptions C05_other_method_needs_secret.
    Then a request that carries a client assertion - valid, wrong or junk, with or without
    client_id - obtains nothing on introspection and on the token endpoint: the assertion is never
    dropped in favour of a check of the (absent, hence empty) secret. *)
-Theorem C05_bare_provider_assertion_refused : forall e c rg p g pl pv,
+Theorem C05_bare_provider_assertion_refused : forall e c rg p g pl pv ar,
   c_jp c = false -> carries_assertion p = true -> e = EIntrospect \/ e = EToken ->
-  success (model (mkInput RLegacy e c rg p g pl pv)) = false.
+  success (model (mkInput RLegacy e c rg p g pl pv ar)) = false.
 Proof. exact bare_provider_assertion_refused. Qed.
 Print Assumptions C05_bare_provider_assertion_refused.
 
@@ -235,14 +299,44 @@ Print Assumptions C05_bare_provider_assertion_refused.
    op.SubjectCheck that lets iss <> sub pass. [PXSub v]: a client assertion issued and signed by X
    whose subject is a second registered client Y (registration v), Y owning the artefact. The client
    that authenticates is the one whose key signed: the answer never acts for Y ... *)
-Theorem C05_subject_never_acted_for : forall r e c rg v g pl pv s ec tok act w,
-  model (mkInput r e c rg (PXSub v) g pl pv) = ORes s ec tok act w -> w <> WOther.
+Theorem C05_subject_never_acted_for : forall r e c rg v g pl pv ar s ec tok act w,
+  model (mkInput r e c rg (PXSub v) g pl pv ar) = ORes s ec tok act w -> w <> WOther.
 Proof. exact subject_never_acted_for. Qed.
 Print Assumptions C05_subject_never_acted_for.
 
 (* ... and under the default SubjectIsIssuer check such an assertion authenticates nobody. *)
-Theorem C05_subject_default_refused : forall r e c rg v g pl pv,
+Theorem C05_subject_default_refused : forall r e c rg v g pl pv ar,
   c_sub c = false -> (e = EToken -> g <> GBearer) ->
-  success (model (mkInput r e c rg (PXSub v) g pl pv)) = false.
+  success (model (mkInput r e c rg (PXSub v) g pl pv ar)) = false.
 Proof. exact subject_default_refused. Qed.
 Print Assumptions C05_subject_default_refused.
+
+(* Round 11. [ar]: the state of the token the request carries - live, undecodable ([ArtJunk]), well formed but
+   naming nothing live ([ArtGone]).  Introspection and revocation authenticate the caller before they look at the
+   token: a caller that is not justified (not authenticated; revocation: nor a public client naming itself) gets
+   the same refusal whatever the token is - it cannot tell a live token of this provider from garbage, and it
+   never gets a success document, not even active:false ... *)
+Theorem C05_unauthenticated_answer_ignores_token : forall r e c rg p g pl pv ar ar',
+  e = EIntrospect \/ e = ERevoke -> names_other p = false ->
+  justified (mkInput r e c rg p g pl pv ar) = false ->
+  model (mkInput r e c rg p g pl pv ar) = model (mkInput r e c rg p g pl pv ar')
+  /\ success (model (mkInput r e c rg p g pl pv ar)) = false.
+Proof. exact unauthenticated_answer_ignores_token. Qed.
+Print Assumptions C05_unauthenticated_answer_ignores_token.
+
+(* ... a client assertion addressed to another issuer ([AWrongAud]: another host, a near miss of the issuer URL,
+   the issuer of ANOTHER TENANT of a provider that derives its issuer from the request's host) authenticates
+   nobody on any endpoint, whatever the instance served before ([pv], e.g. [PrevOtherHost]: X's own valid request
+   at that other tenant) ... *)
+Theorem C05_foreign_audience_refused : forall r e c rg p g pl pv ar,
+  p = PAssert AWrongAud \/ p = PAssertId AWrongAud -> (e = EToken -> g <> GBearer) ->
+  success (model (mkInput r e c rg p g pl pv ar)) = false.
+Proof. exact foreign_audience_refused. Qed.
+Print Assumptions C05_foreign_audience_refused.
+
+(* ... and the jwt-bearer grant yields no token for a grant assertion that is no JWT, is expired or is addressed
+   to another issuer. *)
+Theorem C05_bearer_bad_assertion_refused : forall r c rg p pl pv ar,
+  ar <> ArtOk -> success (model (mkInput r EToken c rg p GBearer pl pv ar)) = false.
+Proof. exact bearer_bad_assertion_refused. Qed.
+Print Assumptions C05_bearer_bad_assertion_refused.
